@@ -114,6 +114,12 @@ func checkC03(p *Prog, res *Result, tier string) {
 				return true
 			}
 		}
+		// a byte-string literal: []byte("...")
+		if cv, ok := v.(*ssa.Convert); ok {
+			if _, isConst := cv.X.(*ssa.Const); isConst {
+				return true
+			}
+		}
 		return false
 	}
 	for _, f := range p.AllFuncs {
